@@ -300,7 +300,7 @@ theorem epInv_reset {p : GenParams} {ec : EnvCfg} {F : FilterCfg} {m : MultiEnv}
     rw [h.env_ec hf, h.hec]
   unfold MultiEnv.reset
   cases hg : m.gs.next m.p with
-  | error e => exact h
+  | error e => exact ⟨h.hp, h.hec, h.hF, h.env⟩
   | ok r =>
     obtain ⟨I, n, gs'⟩ := r
     simp only
